@@ -115,6 +115,13 @@ func runLedgerMon(pid string, seed uint64, n int, out, stats string) {
 		if pid == "C27" {
 			fails = res.C27
 			agree += res.C27Both
+			if len(res.C27Cases) > 0 {
+				c.Begin(22)
+				for _, cs := range res.C27Cases {
+					c.Op(cs[0], cs[1])
+				}
+				c.End(res.C27Both > 0, "fee-route")
+			}
 			dist["fee-in-custom-coin"] += res.C27Checked
 			dist["fee-in-custom-coin-with-reserve-and-pool"] += res.C27Both
 		}
